@@ -69,6 +69,8 @@ op_st = st.one_of(
                            "key": st.sampled_from(["a", "b", "c"])}),
     st.fixed_dictionaries({"op": st.just("ccopy"), "c": st.integers(0, 2),
                            "how": st.sampled_from(["copy", "copy.copy", "copy.deepcopy", "copy.deepcopy"])}),
+    # a Vector built from an Array of the pool and a new sibling of another float type: its components look at their data
+    st.fixed_dictionaries({"op": st.just("mkvec"), "x": st.integers(0, 30), "swap": st.booleans()}),
     # a component of a Vector updated through the attribute: v.y *= 2
     st.fixed_dictionaries({"op": st.just("comp_iop"), "x": st.integers(0, 30), "c": st.integers(0, 2),
                            "o": st.sampled_from(["*", "/"]), "k": st.sampled_from([2.0, 4.0, 0.5])}),
@@ -451,12 +453,13 @@ def history(case, r):
                     break
                 with np.errstate(all="ignore"):
                     newraw = phys / gu[0]
-                    if tdt.startswith("int"):
+                    cdt = m.dtype                                                  # (components may differ in storage type)
+                    if cdt.startswith("int"):
                         newraw = np.round(newraw)
-                    elif tdt == "float32":
+                    elif cdt == "float32":
                         newraw = newraw.astype(np.float32).astype(np.float64)     # x keeps its dtype: stored rounded
                     # rounding allowance: relative to the operands (a difference may cancel), propagated through * and /
-                    eps = 1.2e-7 if (tdt == "float32" or ydt == "float32" or m.lowp or w.buf_lowp.get(m.buf)) else 2.3e-16
+                    eps = 1.2e-7 if (cdt == "float32" or ydt == "float32" or m.lowp or w.buf_lowp.get(m.buf)) else 2.3e-16
                     prev_abs = w.buf_abs.get(m.buf, 0.0) * m.unit[0]            # physical
                     fin = lambda a: float(np.nanmax(np.where(np.isfinite(a), np.abs(a), 0.0), initial=0.0))  # noqa: E731
                     if oper in "+-":
@@ -489,6 +492,31 @@ def history(case, r):
                 if now != ysnap and not overlap:
                     r.bad(["operand-modified", oper], f"{where}: y changed")
                     break
+        elif o == "mkvec":
+            cand = [ee for ee in w.pool if ee.kind == "A" and ee.full and ee.comps[0].sel is None
+                    and ee.comps[0].dtype in ("float64", "float32") and w.raw(ee.comps[0]).ndim == 1]
+            if not cand or len(w.pool) > 8:
+                continue
+            ea = cand[op["x"] % len(cand)]
+            ma = ea.comps[0]
+            odt = "float32" if ma.dtype == "float64" else "float64"
+            with np.errstate(all="ignore"):
+                bvals = (w.raw(ma) * 0.5 + 1.0).astype(np.dtype(odt))
+            w.bufs.append(bvals.astype(np.float64))
+            mb = MArr(len(w.bufs) - 1, None, (ma.unit[0], ma.unit[1]), odt)
+            b_obj = osyris.Array(values=bvals.copy(), unit=ea.objs[0].unit)
+            w.pool.append(Entry("A", [mb], [b_obj]))
+            pair = [(ea.objs[0], ma), (b_obj, mb)]
+            if op["swap"]:
+                pair.reverse()
+            try:
+                vec = osyris.Vector(pair[0][0], pair[1][0])
+            except Exception as ex:
+                r.bad(["vector-of-arrays-raises", type(ex).__name__], f"{where}: Vector of a {ma.dtype} and a {odt} Array: {ex!r}")
+                break
+            # the components show the data of the two Arrays (shared values; their unit labels are their own)
+            w.pool.append(Entry("V", [MArr(mm.buf, mm.sel, (mm.unit[0], mm.unit[1]), mm.dtype) for _, mm in pair], [vec]))
+            r.label("vector_of_tracked_arrays_of_two_float_types")
         elif o == "comp_iop":
             cand = [ee for ee in w.pool if ee.kind == "V"]
             if not cand:
